@@ -54,7 +54,7 @@ def grid_float(lo, hi, q=0.01):
 
 
 @st.composite
-def lab_spec(draw, name, *, kind=None, max_rows=8, max_cols=6, regime="roomy", grid=True, q=0.01, min_zero=None, allow_names=True, pos=None, filled=None):
+def lab_spec(draw, name, *, kind=None, max_rows=8, max_cols=6, regime="roomy", grid=True, q=0.01, min_zero=None, allow_names=True, pos=None, filled=None, legacy=None):
     """One labware specification.
 
     regime: "roomy" (limits never interfere), "tight" (limits of the order of the transferred volumes)
@@ -118,6 +118,10 @@ def lab_spec(draw, name, *, kind=None, max_rows=8, max_cols=6, regime="roomy", g
     else:
         spec["vrows"] = rows
         spec["init"] = flat
+        if legacy is None:
+            legacy = draw(st.integers(0, 3)) == 0
+        if legacy:
+            spec["legacy"] = True
         colnames = None
         if naming != "default":
             colnames = []
@@ -148,6 +152,21 @@ def lab_specs(n_min=1, n_max=3, **kw):
 def build(spec):
     import robotools
 
+    if spec["kind"] == "trough" and spec.get("legacy"):
+        # the older way of creating a trough: Labware(name, 1, columns, virtual_rows=V)
+        names = None
+        if spec.get("colnames"):
+            names = {wid(0, c): n for c, n in enumerate(spec["colnames"]) if n is not None}
+        return robotools.Labware(
+            spec["name"],
+            1,
+            spec["cols"],
+            min_volume=spec["min"],
+            max_volume=spec["max"],
+            initial_volumes=np.array([spec["init"]], dtype=float),
+            virtual_rows=spec["vrows"],
+            component_names=names,
+        )
     if spec["kind"] == "trough":
         return robotools.Trough(
             spec["name"],
